@@ -220,8 +220,6 @@ edn_value_t* edn_read_metadata(edn_parser_t* parser) {
 
         if (meta_value->type == EDN_TYPE_MAP) {
             /* Use the map directly */
-            meta_map->source_start = meta_value->source_start;
-            meta_map->source_end = meta_value->source_end;
             meta_map->as.map.keys = meta_value->as.map.keys;
             meta_map->as.map.values = meta_value->as.map.values;
             meta_map->as.map.count = meta_value->as.map.count;
